@@ -806,7 +806,7 @@ def spaces(tier, seed):
                      "9 option sets (none, all, each flag) + 2 dispatch routes per part"))
     if tier == "quick":
         b = seed % B_PAIRS
-        out.append(Space("part-pairs", lambda: gen_part_pairs(b), True,
+        out.append(Space("part-pairs", lambda b=b: gen_part_pairs(b), True,
                          "all ordered pairs of events on every frame: block %d of %d (hash of the case)" % (b, B_PAIRS)))
         out.append(Space("part-triples", lambda: gen_part_triples(seed % 16, 16), True,
                          "ordered triples with a shared onset on 3 frames: block %d of 16" % (seed % 16)))
@@ -824,7 +824,7 @@ def spaces(tier, seed):
     out.append(Space("rest-single", gen_rest_single, True, "every single rest (<=2 grid cells) on every frame with a key signature at 0; 8 option sets"))
     if tier == "quick":
         b = seed % B_REST
-        out.append(Space("rest-pairs", lambda: gen_rest_pairs(b), True, "ordered pairs rest x (rest | one-cell note) on those frames: block %d of %d" % (b, B_REST)))
+        out.append(Space("rest-pairs", lambda b=b: gen_rest_pairs(b), True, "ordered pairs rest x (rest | one-cell note) on those frames: block %d of %d" % (b, B_REST)))
     else:
         out.append(Space("rest-pairs", lambda: gen_rest_pairs(None), True, "ordered pairs rest x (rest | one-cell note) on those frames"))
     out.append(Space("rest-flags", gen_rest_flags, True, "all 2^6 subsets of the rest options on 5 representative parts"))
@@ -834,7 +834,7 @@ def spaces(tier, seed):
                      "unique ids on/off x {no, all} options + each option" % (G.DIVS2, len(G.CONTENTS), G.STRUCTS2)))
     if tier == "quick":
         b = seed % B_SCORE3
-        out.append(Space("score3", lambda: gen_score3(b), True, "3 parts: divisions %s x contents^3 x pickup x structures %s: block %d of %d" % (G.DIVS3, G.STRUCTS3, b, B_SCORE3)))
+        out.append(Space("score3", lambda b=b: gen_score3(b), True, "3 parts: divisions %s x contents^3 x pickup x structures %s: block %d of %d" % (G.DIVS3, G.STRUCTS3, b, B_SCORE3)))
     else:
         out.append(Space("score3", lambda: gen_score3(None), True, "3 parts: divisions %s x contents^3 x pickup x structures %s" % (G.DIVS3, G.STRUCTS3)))
     out.append(Space("score3-tacet", gen_score3_tacet, True, "3 parts as a Score, no pickup: every contents triple with at least one part without notes x divisions %s" % (G.DIVS3,)))
@@ -843,7 +843,7 @@ def spaces(tier, seed):
     out.append(Space("inverse1", lambda: gen_inverse(tier, 1), True, "note arrays of 1 row: onset x duration alphabets x pitch x {beat, div, both} x voice column x divs multiplier"))
     if tier == "quick":
         b = seed % B_INV
-        out.append(Space("inverse2", lambda: gen_inverse(tier, 2, b), True, "note arrays of 2 rows (ordered): block %d of %d" % (b, B_INV)))
+        out.append(Space("inverse2", lambda b=b: gen_inverse(tier, 2, b), True, "note arrays of 2 rows (ordered): block %d of %d" % (b, B_INV)))
         out.append(Space("inverse3", lambda: gen_inverse(tier, 3, seed % 24, 24), True, "note arrays of 3 rows (sorted row order): block %d of 24" % (seed % 24)))
     else:
         out.append(Space("inverse2", lambda: gen_inverse(tier, 2), True, "note arrays of 2 rows (ordered), larger alphabets"))
